@@ -200,6 +200,55 @@ def build_fs(hist):
     return root
 
 
+def fs_text(hist):
+    """The structure of a generator history in the text syntax of FeatureStructure.from_text: a shared node gets a tag
+    "(n)"; its value is written at its first occurrence (in the order of the text), the other occurrences carry the tag only."""
+    children, value, group = {(): []}, {}, {}
+    for op in hist:
+        p = tuple(op[1])
+        children.setdefault(p[:-1], []).append(p[-1])
+        children.setdefault(p, [])
+        if op[0] == "leaf" and op[2] != "none":
+            value[p] = op[2]
+        if op[0] == "share":
+            q = tuple(op[2])
+            g = group.setdefault(q, [q])
+            g.append(p)
+            group[p] = g
+    tags, seen, seen_vars = {}, set(), []
+
+    def render(path):
+        parts = []
+        for f in children[path]:
+            p = path + (f,)
+            txt = f
+            g = group.get(p)
+            body = ""
+            first = True
+            if g is not None:
+                key = id(g)
+                if key not in tags:
+                    tags[key] = str(len(tags) + 1)
+                first = key not in seen
+                seen.add(key)
+                body = "(" + tags[key] + ")"
+            if first:
+                src = p if g is None else g[0]
+                if children.get(src):
+                    body += "[" + render(src) + "]"
+                else:
+                    vals = [value[x] for x in (g or [p]) if x in value]
+                    if vals:
+                        body += vals[0]
+                    elif g is None:
+                        # an unspecified value is written as a variable of its own
+                        body += "?v%d" % len(seen_vars)
+                        seen_vars.append(p)
+            parts.append(txt + "=" + body)
+        return ", ".join(parts)
+    return render(())
+
+
 def spec_fs(hist):
     paths, atoms, same = [[]], [], []
     val = {}
@@ -354,6 +403,16 @@ def replay(case):
         a, b = build_fs(case["ha"]), build_fs(case["hb"])
         F, G = project_fs(a), project_fs(b)
         evs = [{"op": "fs_build", "F": F, "spec": spec_fs(case["ha"])}]
+        if case["ha"]:
+            from pyformlang.fcfg import FeatureStructure
+            txt = fs_text(case["ha"])
+            r = guard.call(FeatureStructure.from_text, txt, timeout=3.0)
+            ev = {"op": "fs_from_text", "text": txt, "spec": spec_fs(case["ha"])}
+            if r[0] == "ok":
+                ev["F"] = project_fs(r[1])
+            else:
+                ev["exc"] = r[1] if r[0] == "exc" else "Timeout"
+            evs.append(ev)
         res, R = do_unify(a, b)
         a2, b2 = build_fs(case["ha"]), build_fs(case["hb"])
         res2, R2 = do_unify(b2, a2)
